@@ -195,6 +195,15 @@ def routes_case(rep, drv, r, t, v):
         routes.append((label, o))
         encoded.append((label, {'der': enc(der_encoder, o), 'cer': enc(cer_encoder, o)}))
     constructed = gen.base_of(t)[0] in CONSTRUCTED
+    if not sigs._has_default_member(t) and not sigs.contains_real(t):
+        # the value handed over in its plain Python form together with the type (DEFAULT members given as Python values
+        # are C17's subject)
+        try:
+            from pyasn1.codec.native import encoder as native_encoder
+            tree = native_encoder.encode(base_obj)
+            encoded.append(('python-value', {'der': enc(der_encoder, tree, asn1Spec=schema), 'cer': enc(cer_encoder, tree, asn1Spec=schema)}))
+        except Exception:  # noqa
+            rep.count('route-unavailable:python-value')
     if constructed:
         for ed in (None, True, False):
             try:
@@ -413,6 +422,9 @@ ROUTE_CORPUS = [
     ('(choice (r int) (r (tag e c 0 (choice (r int) (r bool)))))', '(ch 1 (ch 1 (b 1)))'),
     ('(seq (r int) (r (choice (r (str 4)) (r (tag e c 1 (choice (r int) (r bool)))))))', '(seq (i 1) (ch 1 (ch 0 (i 5))))'),
     ('(seq (r int) (d (ch 1 (ch 0 (i 5))) (choice (r (str 4)) (r (tag e c 1 (choice (r int) (r bool)))))))', '(seq (i 1) (ch 1 (ch 0 (i 5))))'),
+    # DER order of a SET member that is an untagged CHOICE holding a tagged CHOICE: by the tag it goes out under
+    ('(set (r null) (r (choice (r (tag e c 1 (choice (r int) (r (str 4))))) (r bool))))', '(seq null (ch 0 (ch 0 (i 5))))'),
+    ('(set (r (str 4)) (r bool) (r (choice (r (tag e c 1 (choice (r int) (r (str 12))))) (r null))))', '(seq (s 41) (b 1) (ch 0 (ch 0 (i 5))))'),
 ]
 
 PAIR_CORPUS = [
